@@ -340,6 +340,9 @@ def run(ctx):
         backend_contract(ctx, thorough)
         direction_B(ctx, thorough)
         vhdx_bat_cache_overflow(ctx, thorough)
+        # the views of internal QCOW2 snapshots are streams derived from the active image's stream object: histories that
+        # interleave the active image and its snapshot views (buffered state must not leak from one to the other)
+        importlib.import_module("props.c07").qcow2_snapshots(ctx, random.Random(ctx.seed + 88), 24 if thorough else 8)
         env_buffer_sizes(ctx, thorough)
     finally:
         os.environ.pop("VERIF_DUMP_CACHE", None)
